@@ -381,6 +381,12 @@ def gen_adaptive_cases(tier, rng):
         for ts in AD_TS:
             for (mn, mx) in AD_MULT[:4]:
                 cases.append(mk_adaptive(W, ts, mn, mx, ops, "ctx"))
+    # multiplier pairs whose spread is not exactly representable, with a window holding only failures: the factor
+    # min + 1.0 * (max - min) computed in floats can land an ulp ABOVE max; "a factor within [min_multiplier,
+    # max_multiplier]" (multiplier queries only: no product with a fallback value, hence no rounding of our own)
+    for (mn, mx) in [(1.2, 3.6), (1.4, 5.8), (2.3, 10.9), (1.1, 3.3), (1.7, 2.9)]:
+        for ts in AD_TS:
+            cases.append(mk_adaptive(W, ts, mn, mx, [("f", 0), ("f", 1), ("f", 2), ("m", 3), ("s", 4), ("m", 5)], "ctx"))
     for (w, ts, mn, mx) in [(0.0, 0.9, 1.0, 5.0), (-1.0, 0.9, 1.0, 5.0), (60.0, 0.0, 1.0, 5.0),
                             (60.0, -0.1, 1.0, 5.0), (60.0, 1.5, 1.0, 5.0), (60.0, 0.9, 0.5, 5.0),
                             (60.0, 0.9, 2.0, 1.0), (60.0, 0.9, 1.0, 5.0), (DENORM, DENORM, 1.0, 1.0),
@@ -593,7 +599,8 @@ def lines_for(c) -> list[str]:
         for op, res in zip(qops, c["outs"]):
             tok = q(res[1]) if res[0] == "ok" and is_num(res[1]) else "nan"
             if op[0] == "m":
-                ls.append(f"check_multiplier {q(c['min'])} {q(c['max'])} {REL_S} {tok}")
+                # the factor itself (no product, no rounding of a scaled value): exactly within [min, max]
+                ls.append(f"check_multiplier {q(c['min'])} {q(c['max'])} 0 {tok}")
             else:
                 ls.append(f"check_adaptive {q(op[2])} {q(c['min'])} {q(c['max'])} {REL_S} {EPS_S} {tok}")
         return ls
